@@ -234,6 +234,28 @@ func replacements() []replacement {
 	}
 }
 
+var perturbations = []struct {
+	name string
+	f    func(string) string
+}{
+	{"empty", func(string) string { return "" }},
+	{"leading-exclamation-mark", func(v string) string { return "!" + v }},
+	{"broken-escape-appended", func(v string) string { return v + "%zz" }},
+	{"unbalanced-bracket-appended", func(v string) string { return v + "([" }},
+	{"unfinished-template-appended", func(v string) string { return v + "{{" }},
+	{"asterisk", func(string) string { return "*" }},
+}
+
+func allStrings(items []*node) bool {
+	for _, it := range items {
+		if it.kind != 's' {
+			return false
+		}
+	}
+
+	return true
+}
+
 // mutations enumerates, in document order: every node replaced in turn by each replacement
 // value (identical replacements skipped), every map key removed, every map key duplicated.
 func mutations(root *node) []mutation {
@@ -280,6 +302,41 @@ func mutations(root *node) []mutation {
 			})
 
 			out = append(out, mutation{Path: path, Op: "replace:" + r.name, doc: doc})
+		}
+
+		// the value itself: a string that stays a string but is not what its reader expects (an empty value, a leading
+		// exclamation mark, a broken escape, an unbalanced bracket, an unfinished template); a list of strings with every
+		// element changed the same way
+		for _, pt := range perturbations {
+			var nv *node
+
+			switch {
+			case n.kind == 's':
+				nv = nStr(pt.f(n.s))
+			case n.kind == 'l' && len(n.items) > 0 && allStrings(n.items):
+				nv = nList()
+				for _, it := range n.items {
+					nv.items = append(nv.items, nStr(pt.f(it.s)))
+				}
+			default:
+				continue
+			}
+
+			if nv.equal(n) {
+				continue
+			}
+
+			doc := with(root, idx, func(parent *node, pos int) *node {
+				if parent == nil {
+					return nv
+				}
+
+				parent.items[pos] = nv
+
+				return parent
+			})
+
+			out = append(out, mutation{Path: path, Op: "value:" + pt.name, doc: doc})
 		}
 
 		for i, it := range n.items {
